@@ -391,14 +391,19 @@ def _s1():
         le = [float(ET.epsilon.evaluate()), own[0] if own else "?"]
     except Exception:
         le = None
-    return {"rect_epsilon": [G.Rectangle._distance_epsilon, G.Rectangle._area_epsilon], "legal_epsilon": le,
+    R = G.Rectangle     # through the public interface only (where the values are kept is the library's business)
+    re_ = [R.distance_epsilon(), R.area_epsilon()] if R.epsilon_defined() else [-1.0, -1.0]
+    return {"rect_epsilon": re_, "legal_epsilon": le,
             "debug_print": ET.debug_print, "named_variables": len(ET.named_variables), "store": len(PB.memory)}
 
 
 def _force(var, value):
     G, ET = _m["G"], _m["ET"]
     if var == "rect_epsilon":
-        G.Rectangle._distance_epsilon, G.Rectangle._area_epsilon = value
+        if value[0] >= 0:
+            G.Rectangle.set_epsilon(value[0], value[1])
+        else:
+            G.Rectangle.undefine_epsilon()
     elif var == "legal_epsilon":
         if value is not None:
             ET.set_epsilon(ET.ExpressionTree(None, float(value[0])))
